@@ -23,6 +23,8 @@ if os.environ.get("VERIF_MAKO_PATH"):
 REGISTRY = {
     "C17": {"module": "engines.c17_cache", "level": "exploration", "quick": 20000, "thorough": 400000,
             "per_run_timeout": 120.0, "shrink_budget": 40.0},
+    "C08": {"module": "engines.c08_paths", "level": "exploration", "quick": 1200, "thorough": 40000,
+            "per_run_timeout": 180.0, "shrink_budget": 60.0, "determinism_sample": 48},
     "C13": {"module": "engines.c13_unwind", "level": "fault_enumeration", "quick": 4000, "thorough": 120000,
             "per_run_timeout": 120.0, "shrink_budget": 60.0},
     "C14": {"module": "engines.c14_lookup", "level": "exploration", "quick": 36000, "thorough": 700000},
